@@ -3,6 +3,7 @@ mod c10;
 mod crashx;
 mod drivers;
 mod enumx;
+mod faultx;
 mod fileck;
 mod fresh;
 mod iosim;
@@ -39,6 +40,7 @@ fn main() {
                 "enumx" => enumx::worker(idx),
                 "metax" => metax::worker(idx),
                 "crashx" => crashx::worker(idx),
+                "faultx" => faultx::worker(idx),
                 _ => usage(),
             }
         }
@@ -78,6 +80,7 @@ fn main() {
                 Some("enumx") => enumx::replay(&v),
                 Some("metax") => metax::replay(&v),
                 Some("crashx") => crashx::replay(&v),
+                Some("faultx") => faultx::replay(&v),
                 _ => {
                     eprintln!("unknown engine in replay file");
                     2
@@ -120,6 +123,16 @@ fn run_check(id: &str, tier: Tier) -> i32 {
                 "creation of a new file is not a commit and is outside the property".into(),
             ];
             crashx::run(&mut c);
+            c.finish()
+        }
+        "C11" => {
+            let mut c = Check::new(id, tier, "fault_enumeration");
+            c.assumptions = vec![
+                "faults are injected at the libc boundary of the harness process (lseek/write/fsync/fallocate/mmap on the database fd); a file-size limit is modelled as fallocate/write failing with EFBIG/ENOSPC".into(),
+                "single faults exhaustively for every call of every target commit; pairs (thorough) = first fault x EIO at each call of the large follow-up commit".into(),
+                "after the failed commit: same-handle read, 3 follow-up transactions (the second reuses free pages), reopen, one more transaction, each judged by refmodel + fileck + DB::check()".into(),
+            ];
+            faultx::run(&mut c);
             c.finish()
         }
         "C12" => {
